@@ -84,3 +84,20 @@ def emit_model(self, program, writer):
     t.append("emit")
     if ghost_get("emit_outcome") != 0:
         raise RuntimeError("emit failed")
+
+
+def assemble_as_patch_model(self, asm_file, ips_file, mapping=None, copier_header=False):
+    """Callee contract for cli_main: records what it was called with and the resolver state at that moment."""
+    ghost("entry", "patch")
+    ghost("call", (asm_file, ips_file, mapping, copier_header))
+    ghost("root_symbols_at_call", dict(self.resolver.scopes[0].symbols))
+    ghost("rom_type_at_call", self.resolver.rom_type)
+    return ghost_get("status")
+
+
+def assemble_model(self, asm_file, sfc_file, mapping=None):
+    ghost("entry", "sfc")
+    ghost("call", (asm_file, sfc_file, mapping, None))
+    ghost("root_symbols_at_call", dict(self.resolver.scopes[0].symbols))
+    ghost("rom_type_at_call", self.resolver.rom_type)
+    return ghost_get("status")
